@@ -307,6 +307,21 @@ func checkC02Decoded(c wireCase) error {
 		}
 		stats.Class("metamorphic-tag-ext")
 	}
+	// the payload buffer of the same message object is rewritten in place (a detached payload read into a
+	// reused buffer): the next Verify hands the verifier the structure over the bytes that are there now
+	if pl := *m.payload(); len(pl) > 0 && m.sm == nil {
+		pl[len(pl)/2] ^= 0x77
+		sv := &bridge.SpyVerifier{Alg: cose.Algorithm(c.Spec.Sigs[0].Key.Alg)}
+		if err := m.verify(ext, sv); err != nil {
+			return finding("spy-verify-error", "second Verify with an accepting spy failed: %v", err)
+		}
+		want := refcose.SigStructure1(env.ProtContent(), ext, pl)
+		if !bytes.Equal(sv.Last().Content, want) {
+			return finding("tbs-mismatch/payload-rewritten-in-place", "second Verify of the same message object after its payload buffer was rewritten in place: ToBeSigned is not the structure over the current payload\n got=%x\nwant=%x", sv.Last().Content, want)
+		}
+		pl[len(pl)/2] ^= 0x77
+		stats.Class("decoded/verified-again-after-payload-rewritten-in-place")
+	}
 	// the decoded message is kept as a value copy while the variable it was decoded into receives
 	// another message whose protected header has the same length: the copy still stands for the
 	// bytes it was decoded from
